@@ -141,7 +141,7 @@ CHECKS = {
     "C10": dict(
         text="Lean theorems about the model of note_utils.add_note / delete_note (insertion index by create date, header-only / no-trailing-newline pages, "
         "first-line recognition at identity position): the source loses exactly the moved note's block (prefix and suffix lines untouched), the destination "
-        "gains the note once and keeps every line in order for every page shape; the moved text carries every tag and property of the note as a word "
+        "gains the note once and keeps every line in order for every page shape (the only line ever taken away is an empty line: C10_dest_only_empty_line_replaced, after repair 9873616); the moved text carries every tag and property of the note as a word "
         "(Model/Move.lean: _add_hidden_metadata; properties under the guard that keys are single words, kernel-checked counterexample otherwise). Tied to the code by `note move`/`note promote` style runs on generated "
         "directories (ZIDs mentioned in other notes, multi-line notes, template-created destinations), diffing source and destination bytes against the model and an independent oracle; the inserted text vs Move.movedText computed from the index row.",
         note=NOTE_STD + "File writes atomic; the move is two writes (crash between them is C13).",
